@@ -535,10 +535,23 @@ CLAIMED.update(
     }
 )
 
-NOT_APPLICABLE: dict[str, str] = {
-    "C06": "Correctness of the post-dominator/CDG construction on every code object is functional correctness of a graph "
-    "algorithm; no shape of the code implies it and no sound static argument in reach bounds 'all code objects'.",
-}
+CLAIMED.update(
+    {
+        "C06": (
+            "partition-representative evaluation: CFG._insert_dummy_nodes, filter_dead_code_nodes and ControlDependenceGraph.compute (augmented graph, post-dominator tree, LCA walk) are interpreted from source over representative control-flow graphs and compared with an independent, reachability-based implementation of the definition of control dependence",
+            "Decides a necessary condition only - the property quantifies over every code object and no static argument in reach covers all graphs: on eleven representative CFG shapes (straight line, diamond, if without else, "
+            "nested ifs, while loop, loop with break and else, two returns, two infinite loops, unlabelled two-way split, loop nested in a branch) the interpreted construction yields one entry and one exit with every block "
+            "on a path between them, filter_dead_code_nodes removes exactly the unreachable blocks (including a chain that needs a second pass), compute() returns exactly the labelled edges the definition of Ferrante et "
+            "al. prescribes (post-dominance computed by the checker from reachability, not by a dominator algorithm), and is_control_dependent_on_root / get_control_dependencies agree with those edges. "
+            "Two deviations on the unchanged tree are known findings (a block that depends on both outcomes of a predicate in an infinite loop keeps one label, because the graph holds one edge per pair of blocks). "
+            "Not decided: graphs outside these shapes; the translation of bytecode into the CFG.",
+            "Trusts networkx (immediate_dominators / lowest_common_ancestor are called by the interpreted code exactly as pynguin calls them; has_path for the oracle) and sa/engine/peval.py.",
+            "DESIGN.md §3 C06 (superseded by §10.6)",
+        ),
+    }
+)
+
+NOT_APPLICABLE: dict[str, str] = {}
 
 PENDING_REASON = "no static check is registered for this property yet (rules designed in DESIGN.md §3, not yet armed); not claimed"
 
